@@ -2482,8 +2482,11 @@ def codegen_builtin_elementwise_abs(results, function, args, arg_kinds,
     # Call it a target to avoid name mangling
     from pymbolic import var
     argvar = var("<target>" + args[0])
-    code_generator.sym_kind_table.set(
-        None, "<target>" + args[0], UserType(x_kind.identifier))
+    # This is the dummy argument of *this* instantiation of the function; an
+    # instantiation for another user type registers the same name, so the
+    # entry is replaced rather than unified with the previous one.
+    code_generator.sym_kind_table.per_phase_table.setdefault(None, {})[
+        "<target>" + args[0]] = UserType(x_kind.identifier)
     AbsComputer(code_generator)(ftype, result, {}, argvar, is_rhs_target=False)
     code_generator.emit("")
 
